@@ -298,8 +298,8 @@ func evalTerm(t *T, asg map[string]*big.Int) (*big.Int, bool) {
 	case "index":
 		// a lookup in a constant table with a key that evaluates
 		if tab := tableOfTerm(t.Args[0]); tab != nil {
-			if k, ok := evalTerm(t.Args[1], asg); ok && k.IsInt64() {
-				return tab.at(k.Int64()), true
+			if k, ok := evalTerm(t.Args[1], asg); ok {
+				return tab.at(k), true
 			}
 		}
 		return nil, false
@@ -307,11 +307,11 @@ func evalTerm(t *T, asg map[string]*big.Int) (*big.Int, bool) {
 		// v, ok := table[key]
 		if len(t.Args) == 1 && t.Args[0].K == "index" {
 			if tab := tableOfTerm(t.Args[0].Args[0]); tab != nil {
-				if k, ok := evalTerm(t.Args[0].Args[1], asg); ok && k.IsInt64() {
+				if k, ok := evalTerm(t.Args[0].Args[1], asg); ok {
 					if t.Name == "0" {
-						return tab.at(k.Int64()), true
+						return tab.at(k), true
 					}
-					if _, present := tab.vals[k.Int64()]; present {
+					if tab.has(k) {
 						return big.NewInt(1), true
 					}
 					return big.NewInt(0), true
